@@ -665,9 +665,13 @@ func hex2decimal(chr byte) (rune, bool) {
 
 func parseNumberLiteral(literal string) (value interface{}, err error) { //nolint:nonamedreturns
 	// TODO Is Uint okay? What about -MAX_UINT
-	value, err = strconv.ParseInt(literal, 0, 64)
+	small, err := strconv.ParseInt(literal, 0, 64)
 	if err == nil {
-		return value, nil
+		if small > 1<<53 || small < -(1<<53) {
+			// Not every integer beyond 2^53 is a Number value: round to the double it denotes.
+			return float64(small), nil
+		}
+		return small, nil
 	}
 
 	if errors.Is(err, strconv.ErrRange) {
